@@ -566,8 +566,7 @@ StatusesOf(q, i) == IF i > Len(q) THEN <<>> ELSE (IF q[i].k = "status" THEN <<q[
 StatusNoRepeat ==
   \A s \in Subs : (Active(s) /\ sub[s].kind = "status") =>
      LET st == StatusesOf(got[s], 1) IN
-     /\ \A i \in 1..(Len(st) - 1) : st[i] # st[i + 1]
-     /\ \A i \in 1..(Len(st) - 1) : st[i] # L1F
+     \A i \in 1..(Len(st) - 1) : st[i] # st[i + 1]
 
 (* between two reorg notices a pre-confirmed item (event of a transaction / transaction) is sent once *)
 RECURSIVE PcOnceFrom(_, _, _)
@@ -651,11 +650,20 @@ FoldTxs(q, i, acc) ==
     IF f.k = "tx" /\ f.b = L2 THEN FoldTxs(q, i + 1, Append(acc, <<f.c, f.d, f.a>>))
     ELSE IF f.k = "reorg" THEN FoldTxs(q, i + 1, SelectSeq(acc, LAMBDA e : e[2] < f.a))
     ELSE FoldTxs(q, i + 1, acc)
+RECURSIVE WantTxs(_, _)
+WantTxs(r, n) == IF n > Height THEN <<>>
+                 ELSE LET m == IF TagAt(n) > r.tl THEN Sel(r, blk[TagAt(n)].txs) ELSE <<>> IN [i \in 1..Len(m) |-> <<TagAt(n), n, m[i]>>] \o WantTxs(r, n + 1)
 TxsComplete ==
-  \A s \in Subs : (sub[s].kind = "txs" /\ sub[s].fl2 /\ Settled(s)) => FoldTxs(got[s], 1, <<>>) = WantEvents(sub[s], sub[s].last + 1)
+  \A s \in Subs : (sub[s].kind = "txs" /\ sub[s].fl2 /\ Settled(s)) => FoldTxs(got[s], 1, <<>>) = WantTxs(sub[s], 0)
+
+(* ACCEPTED_ON_L1 is the last status and ends the subscription *)
+StatusL1Last ==
+  \A s \in Subs : (Active(s) /\ sub[s].kind = "status") =>
+     LET st == StatusesOf(got[s], 1) IN \A i \in 1..(Len(st) - 1) : st[i] # L1F
 
 (* the status a client was told last is the status the node would answer now (refuted for the
    code as it is even under the three assumptions: no re-evaluation after a reorg notice) *)
 StatusCurrent ==
-  \A s \in Subs : (sub[s].kind = "status" /\ Settled(s)) => sub[s].lastst = StatusOf(sub[s].tx)
+  \A s \in Subs : (sub[s].kind = "status" /\ Settled(s) /\ (sub[s].lastst >= PRECONF \/ StatusOf(sub[s].tx) >= PRECONF)) =>
+     sub[s].lastst = StatusOf(sub[s].tx)
 =============================================================================
